@@ -58,9 +58,18 @@ theorem C06_finding_packed_unaligned_param :
     calleeAssign wPacked = .error .storeSize ∧ callerAssign wPacked = .ok [.regs [.gp 0, .sse 0], .regs [.gp 1]] ∧
     PsABI.assign wPacked = [.stack 0, .regs [.gp 0]] ∧ sizesOk wPacked = false ∧ CallRegions.supported wPacked = false := by decide
 
-/-- the GNU empty struct as an argument: the second pass pushes nothing, the pop phase pops 8 bytes -/
-def wEmpty : Sig := fixedSig none [.agg false 0 1 .nil, int4]
-theorem C06_finding_empty_struct : callerAssign wEmpty = .error .stackImbalance ∧ sizesOk wEmpty = false := by decide
+/-- the GNU empty struct as an argument (repaired in /repo b298aee; it used to be part of C06-packed-unaligned-param): an
+    aggregate of size 0 takes no register and no stack slot on either side, as in gcc's and clang's C ABI.  Before the fix
+    the second pass pushed nothing for it while the pop phase popped one register (`popOldEmpty`): `assert(depth == 0)`. -/
+def emptyStruct : ATy := .agg false 0 1 .nil
+def wEmpty : Sig := fixedSig (some emptyStruct) [emptyStruct, int4, .agg true 0 1 .nil, .dbl]
+/-- the pop phase before the fix: `has_flonum1` is vacuously true for a struct without members, so one `popf` -/
+def popOldEmpty : List Pop := [Pop.fp 0]
+theorem C06_fixed_empty_struct :
+    callerAssign wEmpty = .ok [.regs [], .regs [.gp 0], .regs [], .regs [.sse 0]] ∧ calleeAssign wEmpty = callerAssign wEmpty ∧
+    PsABI.assign wEmpty = [.regs [], .regs [.gp 0], .regs [], .regs [.sse 0]] ∧
+    retCaller wEmpty.ret = .ok (.regs []) ∧ retCallee wEmpty.ret = .ok (.regs []) ∧ PsABI.ret wEmpty.ret = .regs [] ∧
+    sizesOk wEmpty = true ∧ CallRegions.supported wEmpty = true ∧ popOldEmpty.length ≠ pushSlots emptyStruct := by decide
 
 /-- C06-va-arg-small-struct, `void f(int n, ...)` called with `(1, (struct {long a;}){..}, 2)`: the struct travels in rsi
     (save area offset 8), `va_arg` reads the overflow area -/
@@ -103,5 +112,42 @@ theorem C06_fixed_sret_rax :
     retCaller (some (.agg false 32 8 .nil)) = .ok (.memory true) ∧
     retCallee (some (.agg false 32 8 .nil)) = .ok (.memory true) ∧
     PsABI.ret (some (.agg false 32 8 .nil)) = .memory true := by decide
+
+/-! ### argument conversions
+
+Not a defect: the witness that `C06_arg_extension` cannot be strengthened to "the register is the sign extension to 64 bits",
+and the witness of what a missing `char → _Bool` conversion would do (the seeded change C06c: same-width integer casts
+skipped). -/
+
+section Args
+open ChibiVerif.C06Args ChibiVerif.Spec.IntSpec ChibiVerif.Gen.CommonType
+open ChibiVerif.C01 (Represents)
+
+/-- a machine state with %rax = 0xdeadbeef_ffffff80: the `signed char` -128 as `load` / `movsbl` may leave it -/
+def garbageState : X86.State :=
+  { regs := fun r => if r = .rax then 0xdeadbeef_ffffff80#64 else if r = .rsp then 0x7fff_0000#64 else 0, mem := fun _ => 0 }
+
+/-- `signed char` argument for a `signed char` parameter: no instruction is added, and bits 32..63 of %rdi are whatever was
+    in %rax — not the sign extension of the value.  (A callee that reads them is wrong; chibicc's reads `%dil`.) -/
+theorem C06_arg_upper_bits_garbage :
+    Represents .i8 (garbageState.get .rax) (-128) ∧ argSeq false (some ty_char) ty_char = some [] ∧
+    ∃ s', X86.run (passRegSeq [] 0) garbageState = some s' ∧ s'.get .rdi = 0xdeadbeef_ffffff80#64 ∧
+      s'.get .rdi ≠ BitVec.ofInt 64 (-128) := by
+  refine ⟨⟨by decide, by decide⟩, rfl, ?_⟩
+  obtain ⟨s', h1, h2, _⟩ := pass_reg [] 0 (by decide) garbageState garbageState rfl
+  refine ⟨s', h1, h2, ?_⟩
+  rw [show s'.get .rdi = 0xdeadbeef_ffffff80#64 from h2]
+  decide
+
+/-- without the conversion a `char` argument 2 would reach a `_Bool` parameter as the byte 2 (C06c): the C11 value is 1 -/
+theorem C06_arg_bool_needs_cast :
+    convert .bool 2 = 1 ∧ ¬ Represents .bool 2#64 (convert .bool 2) ∧ Represents .i8 2#64 2 ∧
+    argSeq false (some ty_bool) ty_char ≠ some [] := by
+  refine ⟨by decide, ?_, ⟨by decide, by decide⟩, by decide⟩
+  intro h
+  have := h.2
+  simp [convert] at this
+
+end Args
 
 end ChibiVerif.Findings.C06
